@@ -542,6 +542,9 @@ func Recv2[T any](ch <-chan T) (T, bool) {
 func Close[T any](ch chan<- T) { pre("close", nil); close(ch) }
 func Sleep(d time.Duration)    { pre("sleep", nil); time.Sleep(d); post("sleep") }
 
+// SleepFn brackets a sleeping method (clockwork.Clock.Sleep) with scheduling points.
+func SleepFn(f func(time.Duration), d time.Duration) { pre("sleep", nil); f(d); post("sleep") }
+
 func Chan[T any](ch <-chan T) iter.Seq[T] {
 	return func(yield func(T) bool) {
 		for {
